@@ -145,6 +145,11 @@ func projIssues(m z.ZogIssueMap) (string, []*z.ZogIssue) {
 	var sb strings.Builder
 	all := []*z.ZogIssue{}
 	for _, k := range keys {
+		if k == "$first" {
+			// which issue is $first may depend on the field visit order (C09): only its shape is compared
+			fmt.Fprintf(&sb, "[$first x%d]", len(m[k]))
+			continue
+		}
 		for _, i := range m[k] {
 			fmt.Fprintf(&sb, "[%s|path=%s|code=%s|type=%s|params=%v|value=%s|msg=%s|err=%v]", k, i.Path, i.Code, i.Dtype, i.Params, showVal(i.Value), i.Message, i.Err)
 			if k != "$first" {
@@ -189,7 +194,27 @@ var (
 )
 
 var callKinds = []string{"plain", "ctxval", "probectx", "fail1", "fmtopt", "fail2", "coerce", "custom", "catch",
-	"vslice", "vptrcatch", "vptrnil", "pterr", "list2"}
+	"vslice", "vptrcatch", "vptrnil", "pterr", "list2", "primcatch", "primcatchok", "stest", "pnotnil", "scoerce", "slicetest", "freshfail", "freshvalidate"}
+
+// a schema that is BUILT for the current episode and first used by the goroutines of that episode
+// (lazily initialised per-schema state is only exercised by the first, possibly concurrent, calls)
+var epFresh *z.StructSchema
+
+type freshD struct {
+	Name string
+	Age  int
+	Tags []string
+}
+
+func newFresh() *z.StructSchema {
+	return z.Struct(z.Schema{"name": z.String().Min(3), "age": z.Int().GT(0), "tags": z.Slice(z.String().Min(2)).Max(1)})
+}
+
+var (
+	schPrimCatch = z.Int().GT(5).Catch(0)
+	schStest     = z.Struct(z.Schema{"a": z.Int()}).TestFunc(func(v any, ctx z.Ctx) bool { return false }, z.Message("struct-level"))
+	schSliceTest = z.Slice(z.Int()).Min(3)
+)
 
 // run one call of the alphabet on the real library; tok distinguishes this call's context value
 func doCall(kind, tok string) callOut {
@@ -234,6 +259,36 @@ func doCall(kind, tok string) callOut {
 		m = schPtrNN.Validate(&px)
 	case "pterr":
 		m = schPT.Parse(map[string]any{"a": 3}, &d)
+	case "primcatch", "primcatchok":
+		// a top-level catching primitive: its own (root) context is the one that may catch
+		var x int
+		in := 1
+		if kind == "primcatchok" {
+			in = 9
+		}
+		l := schPrimCatch.Parse(in, &x)
+		y := in
+		l2 := schPrimCatch.Validate(&y)
+		return callOut{proj: fmt.Sprintf("issues=%d/%d dest=%v/%v", len(l), len(l2), x, y), issues: append(l, l2...), l: l}
+	case "stest":
+		m = schStest.Parse(map[string]any{"a": 5}, &d)
+	case "pnotnil":
+		var px *int
+		m = schPtrNN.Parse(nil, &px)
+	case "scoerce":
+		m = schPlain.Parse("not a map", &d)
+	case "slicetest":
+		var s []int
+		m = schSliceTest.Parse([]any{1, 2}, &s)
+		extra = fmt.Sprint(s)
+	case "freshfail":
+		var fd freshD
+		m = epFresh.Parse(map[string]any{"name": "ab", "age": -1, "tags": []any{"x", "yy"}}, &fd)
+		extra = fmt.Sprint(fd)
+	case "freshvalidate":
+		fd := freshD{Name: "ab", Age: 3, Tags: []string{"ok", "z"}}
+		m = epFresh.Validate(&fd)
+		extra = fmt.Sprint(fd)
 	case "list2":
 		var x int
 		l := schListTwo.Parse(1, &x)
@@ -247,6 +302,16 @@ func doCall(kind, tok string) callOut {
 	}
 	p, all := projIssues(m)
 	return callOut{proj: fmt.Sprintf("%s dest=%v nil=%v extra=%s", p, d, m == nil, extra), issues: all, m: m}
+}
+
+// a panic inside a library call made concurrently is a result the call would not have produced alone
+func safeCall(kind, tok string) (o callOut, perr string) {
+	defer func() {
+		if r := recover(); r != nil {
+			perr = fmt.Sprint(r)
+		}
+	}()
+	return doCall(kind, tok), ""
 }
 
 func (o callOut) collect(how int) {
@@ -272,6 +337,7 @@ var baseline = map[string]string{}
 func computeBaselines() {
 	for _, k := range callKinds {
 		zi.ClearPools()
+		epFresh = newFresh()
 		baseline[k] = doCall(k, "tok").proj
 	}
 }
@@ -322,6 +388,7 @@ func cmdPools(args []string) {
 	if *conc == 0 {
 		for hi, h := range hs {
 			zi.ClearPools()
+			epFresh = newFresh()
 			id := fmt.Sprintf("h%d", hi)
 			pt.on = true
 			pt.reset(id)
@@ -360,6 +427,7 @@ func cmdPools(args []string) {
 	} else {
 		for e := 0; e < *episodes; e++ {
 			zi.ClearPools()
+			epFresh = newFresh()
 			pt.gids = map[int64]int{}
 			pt.on = true
 			pt.reset(fmt.Sprintf("c%d", e))
@@ -367,7 +435,11 @@ func cmdPools(args []string) {
 			plans := make([][]histStep, *conc)
 			for g := range plans {
 				for j := 0; j < *calls; j++ {
-					plans[g] = append(plans[g], histStep{Kind: pick(r, callKinds), Collect: r.Intn(2) == 0})
+					k := pick(r, callKinds)
+					if j == 0 && e%2 == 0 {
+						k = pick(r, []string{"freshfail", "freshvalidate"}) // every goroutine starts on the fresh schema
+					}
+					plans[g] = append(plans[g], histStep{Kind: k, Collect: r.Intn(2) == 0})
 				}
 			}
 			start := make(chan struct{})
@@ -383,7 +455,14 @@ func cmdPools(args []string) {
 					regMu.Unlock()
 					<-start
 					for ci, st := range plans[g] {
-						o := doCall(st.Kind, fmt.Sprintf("tok-%d-%d-%d", e, g, ci))
+						o, perr := safeCall(st.Kind, fmt.Sprintf("tok-%d-%d-%d", e, g, ci))
+						if perr != "" {
+							f := false
+							pt.mu.Lock()
+							pt.events = append(pt.events, poolEvent{E: "probe", Kind: st.Kind, G: g + 1, Same: &f, Diff: "concurrent call panicked: " + perr})
+							pt.mu.Unlock()
+							continue
+						}
 						pt.ret(o.issues)
 						// each call returns what it would have returned running alone
 						want := baseline[st.Kind]
